@@ -63,6 +63,11 @@ def main():
                        capture_output=True, text=True)
         try:
             before = run(wt, w, kf["property"])
+            # a defect that depends on the engine's scheduling (marked "intermittent") gets more attempts
+            tries = 1
+            while not before.get("failures") and json.load(open(w)).get("case", {}).get("intermittent") and tries < 15:
+                before = run(wt, w, kf["property"])
+                tries += 1
         finally:
             subprocess.run(["git", "-C", "/repo", "worktree", "remove", "--force", wt], capture_output=True)
         after = run("/repo", w, kf["property"])
